@@ -29,24 +29,42 @@ def nonce96(i):
 
 
 class Stream:
-    def __init__(self):
+    """`base` is the byte array of the whole stream as it appears on the wire: raw fields are windows of it, a sealed segment is an
+    arbitrary ciphertext body (a window of it) followed by the entry's tag (16 byte equalities at a symbolic position)."""
+
+    def __init__(self, name='wire'):
         self.entries, self.segments, self.payloads, self.constraints = [], [], [], []
         self.fields = {}
+        self.base = z3.Array(name, BV64, BV8)
+        self.pos = bv64(0)
+        self.layout = []      # constraints tying `base` to the log (only needed when the stream itself is the decoder's input)
 
     def seal(self, kid, nonce, pt, aad=None, label=''):
         e = ideal.Sealed(kid, nonce, pt, aad=aad, label=label)
         self.entries.append(e)
         self.segments.append(('sealed', e))
+        self.pos = z3.simplify(self.pos + pt[2])
+        self.layout.append(ideal.tag_at(self.base, self.pos) == e.tag)
+        self.pos = z3.simplify(self.pos + bv64(ideal.TAG))
         return e
 
-    def raw(self, arr, off, ln):
-        self.segments.append(('raw', arr, off, ln if not isinstance(ln, int) else bv64(ln)))
+    def raw(self, ln):
+        """a raw field of ln bytes: returns its window (arr, off, len)"""
+        ln = bv64(ln) if isinstance(ln, int) else ln
+        w = (self.base, self.pos, ln)
+        self.segments.append(('raw',) + w)
+        self.pos = z3.simplify(self.pos + ln)
+        return w
+
+    def raw_bytes(self, values):
+        """a raw field with given byte terms"""
+        w = self.raw(len(values))
+        for i, v in enumerate(values):
+            self.layout.append(z3.Select(self.base, w[1] + bv64(i)) == v)
+        return w
 
     def total(self):
-        t = bv64(0)
-        for s in self.segments:
-            t = t + (s[1].pt[2] + bv64(ideal.TAG) if s[0] == 'sealed' else s[3])
-        return z3.simplify(t)
+        return self.pos
 
     def boundaries(self):
         """end offsets of the segments"""
@@ -56,31 +74,9 @@ class Stream:
             out.append(z3.simplify(t))
         return out
 
-    def realize(self, name='wire', kind='bytesmut'):
-        i = z3.BitVec('i!wire', 64)
-        pieces = []
-        start = bv64(0)
-        for s in self.segments:
-            if s[0] == 'raw':
-                _k, arr, off, ln = s
-                pieces.append((start, ln, z3.Select(arr, off + (i - start))))
-                start = start + ln
-            else:
-                e = s[1]
-                ct = fresh_bytes('ctbody')
-                ln = e.pt[2]
-                pieces.append((start, ln, z3.Select(ct, i - start)))
-                start = start + ln
-                tagarr = z3.K(BV64, bvv(0, 8))
-                for t in range(ideal.TAG):
-                    tagarr = z3.Store(tagarr, bv64(t), z3.Extract(8 * t + 7, 8 * t, e.tag))
-                pieces.append((start, bv64(ideal.TAG), z3.Select(tagarr, i - start)))
-                start = start + bv64(ideal.TAG)
-        body = bvv(0, 8)
-        for st, ln, val in reversed(pieces):
-            body = z3.If(z3.And(z3.UGE(i, st), z3.ULT(i - st, ln)), val, body)
-        arr = z3.Lambda([i], body)
-        return Buf(kind, arr, bv64(0), z3.simplify(start))
+    def realize(self, kind='bytesmut'):
+        """the stream as a decoder input; `layout` must be added to the path condition"""
+        return Buf(kind, self.base, bv64(0), self.pos)
 
 
 def sym_payload(name, lo=1, hi=0xffff):
@@ -90,7 +86,7 @@ def sym_payload(name, lo=1, hi=0xffff):
 
 def ss_chunks(kid, K, first_nonce=0, stream=None, name='P'):
     """Shadowsocks AEAD chunk stream: [encrypted payload length][length tag][encrypted payload][payload tag], nonce += 1 per seal"""
-    s = stream or Stream()
+    s = stream or Stream(name + '_wire')
     n = first_nonce
     for j in range(K):
         pl, cs = sym_payload('%s%d' % (name, j))
@@ -120,11 +116,10 @@ def ss_tcp_stream(legacy, key_arr, N, direction, K, name, request_salt=None):
     """one direction of a Shadowsocks TCP connection as a genuine peer writes it.
     direction 'request' (client->server) or 'response' (server->client).  Returns a Stream whose payloads are the application bytes
     the receiver must release (for a request: what follows address and padding)."""
-    s = Stream()
-    salt = z3.Array(name + '_salt', BV64, BV8)
+    s = Stream(name + '_wire')
+    salt = s.raw(N)[0]          # the salt is the first N bytes of the stream
     s.fields['salt'] = salt
     kid = ss_kid(legacy, key_arr, N, salt)
-    s.raw(salt, bv64(0), N)
     if legacy:
         ss_chunks(kid, K, 0, s, name + '_P')
         return s
